@@ -20,6 +20,7 @@ theorem PendOk.keep {d : RState} (h : PendOk d) {p : Pend} (hp : p ∈ d.pend) :
   cases hk : p.kind with
   | slow a b => rfl
   | run a b => rfl
+  | upl a b c => rfl
   | del i f => rw [hk] at this; exact this.2
   | cls i => rw [hk] at this; exact this.2
 
@@ -57,6 +58,7 @@ theorem pendOkW_append_close {P : List Pend} {ns na : Nat} {rel : List Nat} {nex
       cases hqk : q.kind with
       | slow a b => rw [hqk] at this; exact this
       | run a b => rw [hqk] at this; exact this
+      | upl a b c => rw [hqk] at this; exact ⟨this.1, by have := this.2; omega⟩
       | del j f => rw [hqk] at this; obtain ⟨n, hn, hle⟩ := this; exact ⟨n, hn, by omega⟩
       | cls j => rw [hqk] at this; obtain ⟨n, hn, hle⟩ := this; exact ⟨n, hn, by omega⟩
     · simp at hq; subst hq
@@ -84,6 +86,7 @@ theorem pendOkW_counters {P : List Pend} {ns na : Nat} {rel : List Nat} {next : 
   cases hk : p.kind with
   | slow a b => rw [hk] at this; exact ⟨this.1, this.2.1, Nat.le_trans this.2.2.1 h1, this.2.2.2⟩
   | run a b => rw [hk] at this; exact ⟨this.1, this.2.1, Nat.le_trans this.2.2.1 h1, this.2.2.2⟩
+  | upl a b c => rw [hk] at this; exact ⟨this.1, Nat.le_trans this.2 h2⟩
   | del i f => rw [hk] at this; obtain ⟨n, hn, hle⟩ := this; exact ⟨n, hn, Nat.le_trans hle h2⟩
   | cls i => rw [hk] at this; obtain ⟨n, hn, hle⟩ := this; exact ⟨n, hn, Nat.le_trans hle h2⟩
 
@@ -198,7 +201,7 @@ theorem sim_delete {cfg : Cfg} {d d' : RState} {m : Mon} {o : Obs} (hs : Sim cfg
           · left; rw [g3]; simp [hbz]
         · rw [hreq]
           exact chkAnswer_admitted hs _ _ (by simp) hi hname hl _ (by simp) (by simp) (by simp [St.accepted2xx])
-        · exact chkLog_nil _ _ _
+        · exact chkLogOp_nil _ _ _ _
         · simp [chkNoId, hreq]
         · rfl
         · intro h hh; cases hh
@@ -275,7 +278,7 @@ theorem sim_delete {cfg : Cfg} {d d' : RState} {m : Mon} {o : Obs} (hs : Sim cfg
           exact relpre_settle _ (rel_closing hrel.toERelPre hr) (eokq_close hk).notDue
         · rw [hreq]
           exact chkAnswer_admitted hs _ _ (by simp) hi hname hl _ (by simp) (by simp) (by simp [St.accepted2xx])
-        · exact chkLog_nil _ _ _
+        · exact chkLogOp_nil _ _ _ _
         · simp [chkNoId, hreq]
         · rfl
         · intro h hh; cases hh
